@@ -8,6 +8,14 @@ AllOn == AllDefects
 NoneOn == {}
 OnlyStorage == {"SharedStorageOnFailure", "DeployNotIsolated"}
 \* behaviour export (see specs/CapLRU/MC_CapLRU.tla): one behaviour per transition of the abstract graph
+AllCodes == 0..12
+TwoCodes == {0, 4}            \* Ok and UserError: enough where the code does not influence the successor state
+\* behaviour export with ONE failure code per failing transition, rotating over all twelve codes with the state, so
+\* that the volume stays that of a single code while every code is exercised in many different situations
+FailSeq == <<1, 2, 3, 4, 5, 6, 7, 8, 9, 10, 11, 12>>
+RotCode == FailSeq[1 + ((nt + Len(saved) + Cardinality(DOMAIN upd) + Cardinality(DOMAIN acc) + Len(hist)) % 12)]
+GenNextRot == Len(hist) < StepBound /\ (NextOther \/ Return(0) \/ Return(RotCode))
+GenSpecRot == Init /\ [][GenNextRot]_vars
 GenNext  == Len(hist) < StepBound /\ Next
 GenSpec  == Init /\ [][GenNext]_vars
 EmitEdge == PrintT("@@B " \o ToJson(hist'))
